@@ -189,6 +189,14 @@ theorem qInv_step (s s' : St) (a : Act) (hm : MutexInv cfg s) (hf : FreshInv s)
     obtain ⟨hp, rfl⟩ := step_reconfDialFail h
     exact hi.keep cfg (Nat.le_refl _) (fun _ h => h) (Or.inl rfl) rfl rfl
       (mv _ t _ (fun _ => rfl) (fun sid' => by rw [hp]; simp))
+  | extClose t =>
+    obtain ⟨_, rfl⟩ := step_extClose h
+    refine ⟨hi.nsidPos, hi.nz, ?_⟩
+    intro _ w hc; exact absurd rfl hc
+  | swallow t =>
+    obtain ⟨sid, w, hp, _, _, _, _, rfl⟩ := step_swallow h
+    exact hi.keep cfg (Nat.le_refl _) (fun _ h => h) (Or.inl rfl) rfl rfl
+      (mv _ t _ (fun _ => rfl) (fun sid' => by rw [hp]; simp))
 
 /-! ### draining the queue -/
 
@@ -210,7 +218,7 @@ theorem goodQ_reach (hl : cfg.sendLocked = true) {s : St} (hr : Reach cfg bytesO
 theorem dequeue_ok {s : St} {sid : Nat} {q : List Nat} (hp : s.pc 0 = .idle) (hq : s.queue = sid :: q) (h0 : sid ≠ 0)
     (hlk : cfg.procLocked = true → s.lock = none) :
     step cfg bytesOf s .dequeue =
-      some ({ s with queue := q, lock := if cfg.procLocked = true then some 0 else s.lock }.setPc 0 (.made sid)) := by
+      some ({ s with queue := q, lock := if cfg.procLocked = true then some 0 else s.lock, xclosed := false }.setPc 0 (.made sid)) := by
   have e1 : (Queue.step s.q .getNoWait).2.1 = .val sid := by simp [Queue.step, St.q, hq]
   have e2 : (Queue.step s.q .getNoWait).1.items = q := by simp [Queue.step, St.q, hq]
   simp only [step, hp, e1, e2]
@@ -238,7 +246,7 @@ theorem proc_item_ok (hl : cfg.sendLocked = true) (hra : cfg.rearm = true) (huq 
     ∃ acts s', run cfg bytesOf acts s = some s' ∧ (∀ a ∈ acts, a.isFault = false) ∧ s'.queue = q ∧
       s'.pc 0 = .idle ∧ (cfg.procLocked = true → s'.lock = none) ∧ (∃ w, Whole bytesOf s' w sid) ∧ Grows s s' := by
   have h0 : sid ≠ 0 := hg.2.nz sid (by rw [hq]; simp)
-  let s1 : St := { s with queue := q, lock := if cfg.procLocked = true then some 0 else s.lock }.setPc 0 (.made sid)
+  let s1 : St := { s with queue := q, lock := if cfg.procLocked = true then some 0 else s.lock, xclosed := false }.setPc 0 (.made sid)
   have e1 : step cfg bytesOf s .dequeue = some s1 := dequeue_ok cfg bytesOf hp hq h0 hlk
   have p1 : s1.pc 0 = .made sid := by simp [s1]
   by_cases hc : s.conn = none
